@@ -410,6 +410,11 @@ func (q *PathQ) Reach(from Site, startFact uint64, target func(ssa.Instruction) 
 		memo := it.memo
 		stop := false
 		descended := false
+		// predicates over instructions of a helper frame see that frame: a helper's parameters render as the
+		// operands of the call that led here
+		if it.stack != nil {
+			setFrames(it.stack)
+		}
 		for i := it.i; i < len(it.b.Instrs); i++ {
 			in := it.b.Instrs[i]
 			if target(in) {
@@ -459,6 +464,7 @@ func (q *PathQ) Reach(from Site, startFact uint64, target func(ssa.Instruction) 
 			}
 		}
 		if stop || descended {
+			c.frames = savedFrames
 			continue
 		}
 		setFrames(it.stack)
